@@ -121,6 +121,9 @@ class EncodingDB:
                     try:
                         cid2unicode[cid] = name2unicode(cast(str, x.name))
                     except (KeyError, ValueError) as e:
+                        # the code now selects a glyph without a known
+                        # Unicode value, not the base encoding's glyph
+                        cid2unicode.pop(cid, None)
                         log.debug(str(e))
                     cid += 1
         return cid2unicode
